@@ -431,13 +431,19 @@ func (fc *FontConfigurationGotext) wrapWordBreak(text []rune, style *TextStyle, 
 		outputs[i] = output
 	}
 
+	if len(outputs) == 0 { // nothing to shape
+		return FirstLine{Layout: layoutGotext{}, ResumeAt: -1}
+	}
+
 	if style.LetterSpacing != 0 || style.WordSpacing != 0 {
 		ws, ls := floatToFixed(style.WordSpacing), floatToFixed(style.LetterSpacing)
 		shaping.AddSpacing(outputs, text, ws, ls)
 		// add letter spacing at the end, like other browers do
 		lastRun := &outputs[len(outputs)-1]
-		lastRun.Glyphs[len(lastRun.Glyphs)-1].XAdvance += ls
-		lastRun.RecomputeAdvance()
+		if L := len(lastRun.Glyphs); L != 0 {
+			lastRun.Glyphs[L-1].XAdvance += ls
+			lastRun.RecomputeAdvance()
+		}
 	}
 
 	// now we can wrap the runs
